@@ -30,6 +30,30 @@ pub fn load_facts(cx: &mut Ctx, rule: &str) -> Option<Facts> {
     }
 }
 
+/// Thorough tier: the fact directories of the non-default feature configurations, as (label, facts).
+/// `MIRFACTS_DIRS_EXTRA` = `label=dir;label=dir` is set by bin/check for the thorough tier.
+pub fn extra_facts(cx: &mut Ctx, rule: &str) -> Vec<(String, Facts)> {
+    let mut out = vec![];
+    if cx.tier != "thorough" {
+        return out;
+    }
+    let Ok(spec) = std::env::var("MIRFACTS_DIRS_EXTRA") else {
+        cx.anchor_missing(rule, "MIRFACTS_DIRS_EXTRA (the thorough tier runs through bin/check, which produces the MIR facts of the feature configurations)");
+        return out;
+    };
+    for part in spec.split(';').filter(|p| !p.is_empty()) {
+        let Some((label, dir)) = part.split_once('=') else { continue };
+        match crate::mir::load(std::path::Path::new(dir)) {
+            Ok(f) => {
+                cx.unit(&format!("MIR functions [{}]", label), f.crates.values().map(|c| c.funcs.len()).sum());
+                out.push((label.to_string(), f));
+            }
+            Err(e) => cx.anchor_missing(rule, &format!("MIR facts for `{}`: {}", label, e)),
+        }
+    }
+    out
+}
+
 fn is_generated_internal(caller: &str, file: &str) -> bool {
     file.ends_with("parser/src/python.rs") && !caller.contains("__action")
 }
